@@ -1,7 +1,8 @@
 """C01 — validated records read back byte-exact from a node's store (structural clauses)."""
 from cfg import cfg_of
-from flow import Taint, Tracker, callee_matches, field_reads, op_local, prep
+from flow import Taint, Tracker, callee_matches, field_reads, op_local, prep, locals_of_type
 from rules import CallGuard, CallSink, CmpGuard, RetSink, AggSink, BlockSink
+from rules import PL
 from props.C04 import call_results, RS_PUT, NRS
 
 META = {
@@ -110,7 +111,7 @@ def run(R):
     # (3) name / nonce agreement
     n = 0
     ok = True
-    for fn, op, keysrc in ((PUTV, "std::fs::write", None), (NRS + "::read_from_disk", "std::fs::read", "key"), (REMOVE, "std::fs::remove_file", "k")):
+    for fn, op, keysrc in ((PUTV, "std::fs::write", None), (NRS + "::read_from_disk", "std::fs::read", 1), (REMOVE, "std::fs::remove_file", 1)):
         for b in F.item(fn):
             prep(b)
             for blk in b.blocks:
@@ -123,7 +124,7 @@ def run(R):
                     ta = Taint(root, through="all")
                     names = ta.closure(call_results([NRS + "::generate_filename"])(root))
                     joins = [x for x in root.blocks if x["term"]["k"] == "call" and callee_matches(x["term"], ["std::path::Path::join", "std::path::PathBuf::join"])]
-                    dirs = Taint(root, through="all").closure({d for d, r, p in field_reads(root, "storage_dir")} | Taint(root).var_locals("storage_dir"))
+                    dirs = Taint(root, through="all").closure({d for d, r, p in field_reads(root, "storage_dir")} | locals_of_type(root, "&std::path::Path", exact=True))
                     good = [x for x in joins if op_local(x["term"]["args"][1]) in names and op_local(x["term"]["args"][0]) in dirs]
                     if not good:
                         ok = False
@@ -144,8 +145,8 @@ def run(R):
                     gf = [x for x in root.blocks if x["term"]["k"] == "call" and callee_matches(x["term"], [NRS + "::generate_filename"])]
                     for x in gf:
                         a = op_local(x["term"]["args"][0])
-                        if keysrc:
-                            src = Taint(root).closure({l for l in Taint(root).var_locals(keysrc)})
+                        if keysrc is not None:
+                            src = Taint(root).closure(PL(root, keysrc))  # the key parameter, by position
                         else:
                             src = Taint(root).closure({d for d, r, p in field_reads(root, "key")})
                         if a not in src:
@@ -157,7 +158,7 @@ def run(R):
     R.who_may_call("C01.nonce", [RS + "generate_nonce_for_record"], [NRS + "::get_record_from_bytes", NRS + "::prepare_record_bytes"], floor=2,
                    descr="nonce derived by generate_nonce_for_record in both encrypt and decrypt")
     okn = True
-    for fn, cipher_call, keyf in ((NRS + "::get_record_from_bytes", "*aead::Aead>::decrypt", "param:key"), (NRS + "::prepare_record_bytes", "*aead::Aead>::encrypt", "field:key")):
+    for fn, cipher_call, keyf in ((NRS + "::get_record_from_bytes", "*aead::Aead>::decrypt", "param:1"), (NRS + "::prepare_record_bytes", "*aead::Aead>::encrypt", "field:key")):
         b = R.body("C01.nonce.key", fn)
         if b is None:
             continue
@@ -169,7 +170,7 @@ def run(R):
             okn = False
             R.viol("C01.nonce.key", "nonce:%s" % fn.split("::")[-1], "%s does not use the nonce from generate_nonce_for_record" % fn, b, b.lines[0])
         gn = [x for x in b.blocks if x["term"]["k"] == "call" and callee_matches(x["term"], [RS + "generate_nonce_for_record"])]
-        src = Taint(b).closure(Taint(b).var_locals("key")) if keyf.startswith("param") else Taint(b).closure({d for d, r, p in field_reads(b, "key")})
+        src = Taint(b).closure(PL(b, int(keyf.split(":")[1]))) if keyf.startswith("param") else Taint(b).closure({d for d, r, p in field_reads(b, "key")})
         if not gn or not all(op_local(x["term"]["args"][1]) in src for x in gn):
             okn = False
             R.viol("C01.nonce.key", "nonce-key:%s" % fn.split("::")[-1], "nonce in %s is not derived from the record's own key" % fn, b, b.lines[0])
